@@ -151,8 +151,27 @@ def _run_impl(c):
     raise ValueError(k)
 
 
+class _Coder(T.Coder):
+    """values k/64 travel as the scaled integer k (as everywhere); any other double (tiny magnitudes) travels as an
+    opaque code above every scaled value of the case: the filter model only moves values and tests them for zero"""
+    BASE = 10 ** 15
+
+    def __init__(self, universe, values=()):
+        T.Coder.__init__(self, universe)
+        odd = sorted({float(v) for v in values if float(v) * T.SCALE != int(float(v) * T.SCALE)}, key=lambda v: (abs(v), v))
+        self.odd = {v: self.BASE + n for n, v in enumerate(odd)}
+        self.oddback = {k: v for v, k in self.odd.items()}
+
+    def val(self, v):
+        v = float(v)
+        return self.odd[v] if v in self.odd else T.Coder.val(self, v)
+
+    def unval(self, k):
+        return self.oddback[k] if k in self.oddback else T.Coder.unval(self, k)
+
+
 def _coder(c):
-    return T.Coder(T.spec_universe(c['spec']) + list(c.get('keep', [])))
+    return _Coder(T.spec_universe(c['spec']) + list(c.get('keep', [])), [v for row in c['spec']['mat'] for v in row])
 
 
 FLAGS_OK = ['flags', True, True]
@@ -311,7 +330,7 @@ def oracle(c, obs):
 
 # ---------------------------------------------------------------- generation
 def gen_case(rng, spec=None):
-    spec = spec or T.rand_spec(rng, max_r=4, max_c=4, values=rng.choice(['counts', 'small', 'signed', 'dyadic']),
+    spec = spec or T.rand_spec(rng, max_r=4, max_c=4, values=rng.choice(['counts', 'small', 'signed', 'dyadic', 'tiny']),
                                md=rng.choice(['none', 'group', 'group', 'text', 'obs', 'samp', 'partial', 'partial', 'falsy', 'falsy']), ttype=rng.choice([None, 'OTU table']))
     axis = rng.choice(['observation', 'sample'])
     c = _gen_op(rng, spec, axis)
